@@ -140,7 +140,7 @@ CLAIMS = {
             "(C13_scene: it reads as background + one layer per configured shape + one shape per dark module): at ANY scale of at "
             "least 4 pixels per module, for all six shapes, stroked or not, any number of layers, the pixel containing the centre of "
             "a dark module shows the top layer's colour and the pixel containing the centre of a light module or quiet-zone cell shows "
-            "the background (C13_ideal_centres); with square layers at integer scale EVERY pixel is right (C13_ideal_square). "
+            "the background (C13_ideal_centres); with square layers at integer scale EVERY pixel is right (C13_ideal_square); both closed over the builder for every built symbol and margin (C13_ideal_centres_built, C13_ideal_square_built). "
             "What no theorem covers is that resvg / tiny-skia implement the ideal: observed on every run — real pixmap vs the matrix "
             "(all cells, PNG decoded with the png crate) and real pixmap vs Spec.Raster on the real SVG text (pixsvg, every pixel of "
             "small pixmaps).",
